@@ -63,6 +63,13 @@ def build_case(vals, codes, chunks_i, func, method, reindex, by_dask, split_ever
     return c
 
 
+def build_case15(vals, codes, chunks_i, func, method, reindex, by_dask, split_every):
+    kind = "float" if min(codes) < 0 else "int"
+    return {"func": func, "vals": vals, "dtype": "f8", "codes": codes, "label_kind": kind, "chunks": [3] * 5,
+            "ddof": 1 if func in redcase.VAR_FUNCS | redcase.STD_FUNCS else None, "split_every": split_every,
+            "method": method, "reindex": reindex, "by_dask": False}
+
+
 def mk_space(name, alpha, n, patterns, funcs, full, dtype="f8", split_every=(None,)):
     return gen.Space(name, {
         "vals": gen.seqs(alpha, n), "codes": patterns, "chunks_i": range(2 ** (n - 1)), "func": funcs,
@@ -86,6 +93,14 @@ def spaces(ctx):
                                "codes": [[0, 0, 0, 1, 0, 1, 0, 1, 1, 1], [0, 1, 0, 1, 0, 2, 0, 2, 1, 2], [0, 0, 1, 0, 1, 0, 1, 2, 2, 2], [1, 0, 1, 0, 1, 0, 0, -1, 0, 2]],
                                "chunks_i": [0], "func": FUNCS, "method": [None, "cohorts"], "reindex": [None, False], "by_dask": [False],
                                "split_every": [None, 2]}, lambda **kw: build_case(**dict(kw, chunks_i=0))),
+        # merged cohorts whose blocks hold MORE distinct labels (or the missing label) than the cohort has members and lack one
+        # of its members: the per-cohort reindex of a block then selects fewer labels than the block found (5 chunks of 3)
+        gen.Space("merge-15", {"vals": [[gen.iv(((5 * i + 2 * j) % 9) - 4) if (i + 2 * j) % 7 else gen.NAN for i in range(15)] for j in range(4)],
+                               "codes": [[0, 1, 1, 0, 1, 0, 0, 1, 1, 0, 2, 3, 2, 3, 3], [0, 1, 1, 0, 1, 0, 0, 1, 1, 0, 2, -1, 2, 2, -1],
+                                         [1, 0, 0, 1, 0, 1, 1, 0, 0, 1, 3, 2, 3, 2, 2], [2, 3, 3, 2, 3, 2, 2, 3, 3, 2, 0, 1, 0, 1, 1],
+                                         [0, 2, 2, 0, 2, 0, 0, 2, 2, 0, 1, -1, 1, 1, 1]],
+                               "chunks_i": [0], "func": FUNCS, "method": [None, "cohorts", "map-reduce"], "reindex": [None, False], "by_dask": [False],
+                               "split_every": [None, 2]}, lambda **kw: build_case15(**kw)),
         mk_space("i8-4", gen.ALPHA_INT, 4, gen.code_patterns(4, with_missing=False),
                  ["sum", "prod", "mean", "var", "max", "min", "argmax", "nanargmin", "nanfirst", "nanlast", "count"], full=True, dtype="i8", split_every=(None, 2)),
         mk_space("bool-4", gen.ALPHA_BOOL, 4, gen.code_patterns(4, with_missing=False)[:3], ["any", "all", "sum", "count", "max"], full=True, dtype="b1"),
